@@ -87,7 +87,7 @@ class IntBox:
 def objects():
     return [0, 1, True, 1.5, 1j, "a", "", b"a", None, (1, "a"), (1, 2), (), [1, 2], ["a"], [], {"a": 1}, {1: "a"}, {}, {1}, frozenset({1}),
             {"x"}, {1.5}, {1, "a"}, [{"x"}], frozenset({"x"}), range(3), Color.RED, A(), B(), int, A, B, str, (1, "s", 1.5), (1, 2.5), (1, "s", "t", 0.5), Point(1, 2), Celsius(36.6), {"a": 1, "b": "x"}, {"a": 1, "b": 5}, {"a": "x"}, {"a": "x", "k": 1},
-            {"a": None}, {"a": 1, "b": None}, collections.abc.Sized]
+            {"a": None}, {"a": 1, "b": None}, collections.abc.Sized, Color]
 
 
 def types():
@@ -96,7 +96,7 @@ def types():
             Iterable[int], Iterable[str], typing.AbstractSet[str], Set[str], List[Set[int]], Sequence[str], Type[A], Type[int], A, B, Color, Literal[Color.RED], Annotated[int, "x"], Optional[List[int]], List[Optional[int]],
             Dict[str, List[int]], Tuple[int, Tuple[str, int]], Sequence[Union[int, str]], Tuple[int, int], TD1, TD2, TD3, TD4, TD5, Optional[complex], Tuple[int, typing_extensions.Unpack[Tuple[str, ...]], float],
             Union[Literal[0, 1, 2, 3, 4, 5, 6, 7, 8, 9], List[int]], Union[Literal["a", "b", "c", "d", "e", "f", "g", "h", "i", "j"], Dict[str, int], Set[int]], TD6,
-            type, abc.ABCMeta, Type[Color], ThriftE]
+            type, abc.ABCMeta, Type[Color], ThriftE]   # (Type[collections.abc.Sized]: virtual subclasses through __subclasshook__, known finding D58, has its own witness)
 
 
 import typing_extensions
@@ -210,9 +210,25 @@ def search_literals(skip_known=True):
             if got != want and skip_known and got and type(o) not in (tuple, list, set, frozenset, dict) and isinstance(o, (tuple, list, set, frozenset, dict)) \
                     and typing.get_origin(T) in (collections.abc.Iterable, collections.abc.Sequence, collections.abc.Collection, collections.abc.Set, collections.abc.Mapping):
                 continue  # known finding D50: instance of a proper subclass of a builtin container against a generic ABC
+            if got != want and skip_known and got and isinstance(o, enum.EnumMeta) and typing.get_origin(T) in (collections.abc.Iterable, collections.abc.Sequence, collections.abc.Collection):
+                continue  # known finding D57: an Enum class (iterable through EnumMeta.__iter__, whose self-typed signature is not solved) against Iterable[X]
+            if got != want and skip_known and want and typing.get_origin(T) is type and getattr(typing.get_args(T)[0], "_is_protocol", False) is False and typing.get_args(T)[0] is collections.abc.Sized:
+                continue  # known finding D58: type[<ABC with a __subclasshook__>] rejects class objects, the ABC itself included
             if got != want:
                 return f"is_assignable({o!r}, {T}) = {got}, structural membership says {want}"
     return None
+
+
+def w_d57(rec):
+    from pyanalyze.runtime import is_assignable
+    got = is_assignable(Color, Iterable[int])
+    return bool(got), f"is_assignable(<enum 'Color'>, Iterable[int]) = {got}: iterating the class yields its members, not ints (EnumMeta.__iter__'s self-typed signature is not solved and the element type degrades to Any)"
+
+
+def w_d58(rec):
+    from pyanalyze.runtime import is_assignable
+    a, b = is_assignable(collections.abc.Sized, Type[collections.abc.Sized]), is_assignable(str, Type[collections.abc.Sized])
+    return (not a and not b), f"is_assignable(Sized, Type[Sized]) = {a}, is_assignable(str, Type[Sized]) = {b}: both are class objects that are subclasses of Sized (issubclass is True)"
 
 
 def w_d50(rec):
@@ -326,6 +342,8 @@ def w_d25(rec):
 
 REPLAYERS["C03.D25"] = w_d25
 REPLAYERS["C03.D50"] = w_d50
+REPLAYERS["C03.D57"] = w_d57
+REPLAYERS["C03.D58"] = w_d58
 REPLAYERS["C04.D23"] = w_d23
 REPLAYERS["C04.D24"] = w_d24
 REPLAYERS["C03.bounded"] = lambda rec: (lambda m: (bool(m), m or "is_assignable(o, T) == member(o, T) on the object x type universe"))(search_literals())
